@@ -336,3 +336,179 @@ func c02Depth(p *load.Prog, r *oblig.Run, dec *ssa.Function, header *ssa.BasicBl
 		}
 	}
 }
+
+// c02AttachOps (R02.g): the two attach operations the decoder relies on really
+// attach: on every path through Document.AddNode and SimpleNode.AddNode the
+// argument is appended to the membership field, unless the path took the "is
+// nil" side of a nil test of the argument. (R02.a counts the calls; a guard
+// inside the callee that skips the append - e.g. "a record with this pointer
+// exists already" - drops the line all the same.)
+func c02AttachOps(p *load.Prog, r *oblig.Run) {
+	r.Rule("R02.g", "Document.AddNode and SimpleNode.AddNode append their argument on every path that does not find it nil", 2)
+	isNil := p.Func(load.PkgRoot, "IsNil")
+	for _, spec := range []struct{ typ, field string }{{"Document", "nodes"}, {"SimpleNode", "children"}} {
+		fn := p.Method(load.PkgRoot, spec.typ, "AddNode")
+		o := r.Add("R02.g", spec.typ+".AddNode appends", "-", "append to "+spec.typ+"."+spec.field)
+		if fn == nil || len(fn.Blocks) == 0 || len(fn.Params) < 2 {
+			o.Unknown(spec.typ + ".AddNode not found")
+			continue
+		}
+		o.Pos = p.Pos(fn.Pos())
+		arg := fn.Params[1]
+		// blocks that perform the append-store of the argument
+		appendBlocks := map[*ssa.BasicBlock]bool{}
+		for _, b := range fn.Blocks {
+			for _, ins := range b.Instrs {
+				st, ok := ins.(*ssa.Store)
+				if !ok {
+					continue
+				}
+				fa, ok := st.Addr.(*ssa.FieldAddr)
+				if !ok || su.FieldName(fa) != spec.field {
+					continue
+				}
+				c, ok := st.Val.(*ssa.Call)
+				if !ok {
+					continue
+				}
+				if bi, isB := c.Call.Value.(*ssa.Builtin); !isB || bi.Name() != "append" || len(c.Call.Args) != 2 {
+					continue
+				}
+				// the appended slice holds the argument
+				holds := false
+				if sl, ok := c.Call.Args[1].(*ssa.Slice); ok {
+					if al, ok := sl.X.(*ssa.Alloc); ok {
+						for _, ref := range *al.Referrers() {
+							if ia, ok := ref.(*ssa.IndexAddr); ok {
+								for _, r2 := range *ia.Referrers() {
+									if s2, ok := r2.(*ssa.Store); ok && su.Strip(s2.Val) == ssa.Value(arg) {
+										holds = true
+									}
+								}
+							}
+						}
+					}
+				}
+				if holds {
+					appendBlocks[b] = true
+				}
+			}
+		}
+		if len(appendBlocks) == 0 {
+			o.Fail(spec.typ + ".AddNode no longer appends its argument to " + spec.field)
+			continue
+		}
+		paths, capped := simplePaths(fn.Blocks[0], map[*ssa.BasicBlock]bool{}, 2000)
+		if capped {
+			o.Unknown("too many paths")
+			continue
+		}
+		bad := ""
+		for _, path := range paths {
+			last := path[len(path)-1]
+			if _, isRet := last.Instrs[len(last.Instrs)-1].(*ssa.Return); !isRet {
+				continue
+			}
+			attached, nilSide := false, false
+			for i, b := range path {
+				if appendBlocks[b] {
+					attached = true
+				}
+				if i+1 >= len(path) {
+					break
+				}
+				iff, ok := b.Instrs[len(b.Instrs)-1].(*ssa.If)
+				if !ok {
+					continue
+				}
+				outcome := path[i+1] == b.Succs[0]
+				cond := iff.Cond
+				if u, isNot := cond.(*ssa.UnOp); isNot && u.Op == token.NOT {
+					cond, outcome = u.X, !outcome
+				}
+				switch c := cond.(type) {
+				case *ssa.Call:
+					if c.Call.StaticCallee() == isNil && isNil != nil && len(c.Call.Args) == 1 && su.Strip(c.Call.Args[0]) == ssa.Value(arg) && outcome {
+						nilSide = true
+					}
+				case *ssa.BinOp:
+					if k, isK := c.Y.(*ssa.Const); isK && k.Value == nil && su.Strip(c.X) == ssa.Value(arg) && (c.Op == token.EQL) == outcome {
+						nilSide = true
+					}
+				}
+			}
+			if !attached && !nilSide {
+				bad = "a path " + pathDesc(p, path) + " returns without appending although the argument was not found nil"
+			}
+		}
+		if bad != "" {
+			o.Fail(spec.typ + ".AddNode can skip the append for a non-nil node (" + bad + "): a line the decoder parsed and handed over is dropped together with everything below it")
+		} else {
+			o.OK("appended on every path that did not find the argument nil")
+		}
+	}
+}
+
+// c02TrimOnlyEnds (R02.h): every store into a node's value made by the decoder
+// itself (trimNodeValue) stores the old value passed through a standard
+// end-trimming function and nothing else - a helper that also rewrites the
+// inside of the value (collapsing runs of spaces, changing case) changes what
+// the file said.
+func c02TrimOnlyEnds(p *load.Prog, r *oblig.Run) {
+	r.Rule("R02.h", "the decoder's value clean-up only removes characters at the two ends of the value", 1)
+	fn := p.Method(load.PkgRoot, "Decoder", "trimNodeValue")
+	o := r.Add("R02.h", "value stored by trimNodeValue", "-", "what trimNodeValue writes back")
+	if fn == nil {
+		o.Unknown("Decoder.trimNodeValue not found")
+		return
+	}
+	o.Pos = p.Pos(fn.Pos())
+	trims := map[string]bool{"TrimSpace": true, "Trim": true, "TrimRight": true, "TrimLeft": true, "TrimFunc": true, "TrimRightFunc": true, "TrimLeftFunc": true, "TrimSuffix": true, "TrimPrefix": true}
+	n, bad := 0, ""
+	for _, b := range fn.Blocks {
+		for _, ins := range b.Instrs {
+			st, ok := ins.(*ssa.Store)
+			if !ok {
+				continue
+			}
+			fa, ok := st.Addr.(*ssa.FieldAddr)
+			if !ok || su.FieldName(fa) != "value" {
+				continue
+			}
+			n++
+			// stored value: trimX(... trimY(load of a value field) ...)
+			v := st.Val
+			for d := 0; d < 6; d++ {
+				c, ok := v.(*ssa.Call)
+				if !ok {
+					break
+				}
+				cal := c.Call.StaticCallee()
+				if cal == nil || cal.Pkg == nil || cal.Pkg.Pkg.Path() != "strings" || !trims[cal.Name()] {
+					bad = "the value is passed through " + c.Call.String() + ", which is not an end-trimming function of package strings"
+					break
+				}
+				v = c.Call.Args[0]
+			}
+			if bad != "" {
+				continue
+			}
+			ld, ok := v.(*ssa.UnOp)
+			if !ok {
+				bad = "the stored value is not derived from the node's value by trimming only"
+				continue
+			}
+			if f2, ok := ld.X.(*ssa.FieldAddr); !ok || su.FieldName(f2) != "value" {
+				bad = "the stored value is not derived from the node's value by trimming only"
+			}
+		}
+	}
+	switch {
+	case n == 0:
+		o.Unknown("trimNodeValue stores no value")
+	case bad != "":
+		o.Fail("trimNodeValue does more than trim the ends: " + bad + " - interior characters of a value (e.g. two consecutive spaces) are not what the file said after decoding")
+	default:
+		o.OK("strings trimming functions applied to the node's own value")
+	}
+}
